@@ -135,16 +135,12 @@ Section Codec.
   Definition writer_do {A} (full : bool) (run : A) : A := if full then run else run.
 
   (* The stackless writer hands the coder an in-memory sink (xw) and, when an operation has returned, forwards what
-     the sink holds and resets it (writer.do).  klauspost's zstd Encoder (default concurrency) writes a finished block
-     to its sink from a goroutine of its own, possibly after Write has returned: as soon as the data passes one
-     encoder block, such a write can fall between the forwarding and the reset, or tear the sink.  The other three
-     coders write synchronously. *)
-  Definition zstd_block : Z := 131072.     (* klauspost/compress zstd: maxCompressedBlockSize = 128 KiB (dependency, hand-typed) *)
-  Definition async_coder (k : coding) (consumed : bytes) : bool :=
-    match k with Zstd => (Z.of_nat (length consumed) >? zstd_block)%Z | _ => false end.
-
+     the sink holds and resets it (writer.do).  That is sound only for coders that have written their output when the
+     operation returns: gzip, zlib and brotli do; the zstd Encoder is created with WithEncoderConcurrency(1) (b444fe3)
+     so that it does too (with the default concurrency it wrote blocks from its own goroutines: the repaired
+     zstd-stackless-async-write defect). *)
   Definition coder_output (k : coding) (lvl : Z) (consumed : bytes) (closed : bool) : wire :=
-    if async_coder k consumed then WLossy k (enc k lvl consumed) else WCoded k (enc k lvl consumed) closed.
+    WCoded k (enc k lvl consumed) closed.
 
   (* Write<Coding>Level(w, p, level) for any other io.Writer: acquire (fresh writer), Write, release (Close) *)
   Definition write_generic (k : coding) (lvl : Z) (p : bytes) (full_write full_close : bool) : sres :=
